@@ -8,6 +8,7 @@ integration of the CSV polynomials, aligned and unaligned bundle bounds,
 normalisation on/off, scaling factors, several step sizes; temperature-rise
 linearity in the power for constant properties.
 """
+import os
 import random
 from fractions import Fraction
 
@@ -75,6 +76,10 @@ def make_case(rng, aligned, n_core_rings=1, near=False):
                 hi_ok = all(r['z_lo'] > znew for r in regs if r is not reg and r['name'] == 'upper')
                 if lo_ok and hi_ok and 0 < znew < case['core']['length']:
                     reg[key] = znew
+    if rng.random() < 0.35:
+        # the rows of the file are labelled: writing them in another order describes the same power
+        case['power']['row_order'] = rng.choice(['item-major', 'cell-reversed', 'shuffled'])
+        case['power']['row_seed'] = rng.randrange(10 ** 6)
     if rng.random() < 0.5:
         case['power']['total_power'] = round(rng.uniform(1e4, 5e5), 1)
     if rng.random() < 0.4:
@@ -101,6 +106,7 @@ def oracle(ctx, rng, n):
             continue
         ctx.evals += 1
         ctx.count("aligned" if aligned else "unaligned")
+        ctx.count("row_order:%s" % (case['power'].get('row_order') or 'canonical'))
         ex = exact_power(case)
         ptot_ex = float(sum(ex.values()))
         factor = 1.0
@@ -204,12 +210,82 @@ def linearity(ctx, rng, n):
                 return
 
 
+def rows_correspondence(ctx, rng, n):
+    """Model/PowerRows.lean (Props/C03Rows.lean) vs the real power._from_file: labelled rows written in file orders of all kinds;
+    the table params[component][axial cell][item] must be the one the model builds (bit for bit) - and, independently, the one the
+    labels describe"""
+    from dassh import power as dpower
+    if not modelio.build_driver(ctx):
+        return
+    d = ctx.work / "rows"
+    os.makedirs(d, exist_ok=True)
+    reqs, meta = [], []
+    for ci in range(n):
+        ncell = rng.choice([1, 2, 2, 3, 4])
+        nt = rng.choice([1, 2, 3])
+        cuts = sorted(set(round(rng.uniform(0.05, 0.95), 3) for _ in range(ncell - 1)))
+        zb = [0.0] + cuts + [1.0]
+        comps = rng.choice([(1,), (1, 2, 3), (1, 3), (2, 3)])
+        rows = []
+        nitems = {}
+        for comp in comps:
+            nitems[comp] = rng.choice([1, 2, 3, 7])
+            rows += gi.poly_rows(1, comp, zb, nitems[comp], lambda k, i: [round(rng.uniform(1.0, 9e3), 3)] +
+                                 [round(rng.uniform(-50, 50), 3) for _ in range(nt - 1)])
+        if len(rows) < 2:
+            continue        # np.loadtxt gives a 1-D array for a one-line file; no DASSH assembly has a single power row
+        order = rng.choice([None, 'item-major', 'cell-reversed', 'shuffled', 'shuffled'])
+        written = gi.ordered_rows(rows, order, ci)
+        path = str(d / ("p%d.csv" % ci))
+        with open(path, "w") as f:
+            f.write(gi.render_power(dict(power=dict(rows=written))))
+        try:
+            got = dict(dpower._from_file(path))[1.0]
+        except SystemExit:
+            ctx.count("rows:rejected")
+            continue
+        ctx.evals += 1
+        ctx.count("rows:%s" % (order or 'canonical'))
+        for comp in comps:
+            cname = ['pins', 'duct', 'cool'][comp - 1]
+            mine = [r for r in written if r[1] == comp]
+            # what the labels describe, in the reader's internal units (cm, W/cm)
+            want = {}
+            for r in mine:
+                want[(zb.index(r[2]), int(r[4]) - 1)] = [float(c) / 100 for c in r[5:]]
+            arr = np.asarray(got[cname], dtype=float)
+            wrong = [(k, i) for (k, i), cs in want.items() if arr.shape[:2] != (len(zb) - 1, nitems[comp]) or list(arr[k, i]) != cs]
+            if wrong:
+                k, i = wrong[0]
+                ctx.violation("c03-rows-misassigned:%s" % (order or 'canonical'),
+                              "power file with %s row order: the %s row labelled axial cell %d, item %d (%r W/cm) is used for another "
+                              "cell/item (the table holds %r there); %d of %d entries are wrong"
+                              % (order or 'canonical', cname, k + 1, i + 1, want[(k, i)],
+                                 list(arr[k, i]) if arr.shape[:2] == (len(zb) - 1, nitems[comp]) else arr.shape, len(wrong), len(want)),
+                              csv=open(path).read(), call="dassh.power._from_file(<csv>)")
+            reqs.append("prows %d %d | %s" % (nitems[comp], nt, " ".join(
+                "%d %d %s" % (bits(float(r[2]) * 100.0), int(r[4]), " ".join(str(bits(float(c) / 100)) for c in r[5:])) for r in mine)))
+            meta.append((path, cname, arr))
+    bad = 0
+    for rep, (path, cname, arr) in zip(modelio.ask(reqs) if reqs else [], meta):
+        flat = " | ".join(" ; ".join(" ".join(str(bits(float(c))) for c in item) for item in cell) for cell in arr)
+        if rep != "ok " + flat:
+            bad += 1
+            ctx.problem("correspondence", "Model.PowerRows.table vs power._from_file", "%s %s: model %s, real %s"
+                        % (path, cname, rep[:200], flat[:200]))
+    ctx.obligation("correspondence: Model.PowerRows.table = the table built by power._from_file on %d labelled row sets in canonical, "
+                   "item-major, reversed and shuffled file order" % len(reqs), bad == 0, kind="correspondence",
+                   detail="disagreements %d" % bad)
+
+
 def run(ctx):
     rng = random.Random(3300 + ctx.seed)
     ctx.rule = ("oracle: real reactors with user power (1-4 axial cells, polynomial order 0-2, missing components, zero cells), "
                 "bundle bounds aligned / not aligned with the power mesh, normalisation on/off, scaling, several step sizes; "
                 "delivered power vs exact rational integration of the CSV")
     ctx.prove("Dassh.Props.C03")
+    ctx.prove("Dassh.Props.C03Rows")
+    rows_correspondence(ctx, rng, 200 if ctx.thorough else 40)
     oracle(ctx, rng, 60 if ctx.thorough else 14)
     linearity(ctx, rng, 10 if ctx.thorough else 3)
     ctx.nontrivial = ctx.evals
